@@ -951,6 +951,39 @@ def div_env_ok(vt):
     return ok
 
 
+def judge_div_value(ctx, inst, S):
+    """div / % on vectors: every lane whose own divisor is valid must be exact *whatever the other lanes
+    hold* (a zero divisor elsewhere must not change it).  First the plain comparison on inputs whose lanes
+    are all valid (identity of normal forms, truth table, witness); if that leaves the instance open, the two
+    closed forms are compared again lane by lane with the lanes whose own divisor is invalid masked out on
+    both sides, over inputs that do contain zero divisors."""
+    import runner
+    import lanecheck
+    from common import HOLDS, REFUTED, UNDECIDED
+    v, detail, rule, wit = runner.judge_default(ctx, inst, S)
+    vt = ctx.vt
+    if v != UNDECIDED or vt.n == 1 or S.ret is None or S.flags & {"loop", "call", "asm", "indirect-call"}:
+        return v, detail, rule, wit
+    expected = inst.expect(ctx)
+    if not (lanecheck.interpreted(S.ret) and lanecheck.interpreted(expected)) or S.ret[1] != expected[1]:
+        return v, detail, rule, wit
+    eb = vt.eb
+    la, lb = ctx.lanes("a"), ctx.lanes("b")
+    am, em = [], []
+    for i in range(vt.n):
+        valid = T.icmp("ne", lb[i], T.const(eb, 0))
+        if vt.signed:
+            valid = T.and_(valid, T.not_(T.and_(T.icmp("eq", la[i], T.const(eb, 1 << (eb - 1))),
+                                                T.icmp("eq", lb[i], T.const(eb, (1 << eb) - 1)))))
+        am.append(T.select(valid, T.slice_(S.ret, i * eb, eb), T.const(eb, 0)))
+        em.append(T.select(valid, T.slice_(expected, i * eb, eb), T.const(eb, 0)))
+    w = lanecheck.find_witness(T.concat(am), T.concat(em), ctx.argspecs, ctx.names, eb)
+    if w is not None:
+        w["note"] = "lanes whose own divisor is zero (or MIN / -1) are masked out on both sides; the differing lane has a valid divisor"
+        return REFUTED, "an invalid divisor in another lane changes the result of a lane whose divisor is valid: " + (detail or "")[:300], rule, w
+    return v, detail, rule, wit
+
+
 def judge_notrap(ctx, inst, S):
     """no hardware division whose divisor may be zero (or MIN/-1 for sdiv) in a multi-lane div"""
     from common import HOLDS, REFUTED, UNDECIDED
@@ -989,6 +1022,7 @@ def fam_div(vt, cfg):
                              ("quo_assign", "a", eq, "a /= b;"), ("rem_assign", "a", er, "a %= b;")):
         i = Inst(nm, VV, "V", body, e, pre=pre)
         i.env_ok = div_env_ok(vt)
+        i.judge = judge_div_value
         # the operator forms are tied to div() by body equality (A-ireq); only div() itself is
         # compared with the closed form
         i.wrapper_only = not nm.startswith("div_")
@@ -1329,6 +1363,18 @@ def judge_numeq(ctx, inst, S):
         lanecheck.NUMEQ[0] = False
 
 
+def judge_naneq(ctx, inst, S):
+    """closed-form comparison where two NaN lanes count as equal but the sign of a zero result matters
+    (frexp / ldexp / scalbn: 'zeros of either sign return themselves')"""
+    import runner
+    import lanecheck
+    lanecheck.NANEQ[0] = True
+    try:
+        return runner.judge_default(ctx, inst, S)
+    finally:
+        lanecheck.NANEQ[0] = False
+
+
 def _ldexp_points(eb):
     """paired (x, e) lane values for ldexp/scalbn: results on both sides of every range boundary and
     subnormal results whose discarded bits are 0 1...1 below an odd kept bit (a scaling carried out in
@@ -1363,7 +1409,7 @@ def judge_ldexp(ctx, inst, S):
     import lanecheck
     lanecheck.EXTRA_POINTS[0] = _ldexp_points(ctx.vt.eb)
     try:
-        return judge_numeq(ctx, inst, S)
+        return judge_naneq(ctx, inst, S)
     finally:
         lanecheck.EXTRA_POINTS[0] = None
 
@@ -1419,7 +1465,7 @@ def fam_cmathx(vt, cfg):
     i.rettype = iv + "::primitive"
     add(i)
     add(Inst("frexp_m", [("V", "a"), ("P2", "e")], "V", "avel::frexp(a, reinterpret_cast<%s*>(e))" % iv,
-             lanewise1(lambda c, x: T.op("spec:c_frexp_m", eb, x))))
+             lanewise1(lambda c, x: T.op("spec:c_frexp_m", eb, x))), judge=judge_naneq)
     i = Inst("frexp_e", [("V", "a"), ("P2", "e")], "V", "avel::frexp(a, reinterpret_cast<%s*>(e))" % iv, None)
     i.pure = False
     add(i, judge=judge_frexp_e)
